@@ -5,7 +5,8 @@
 1. TLC model-checks spec/Binding.tla (MC_Binding*.cfg): the code as it is (Fix = FALSE) and the
    repaired _wait_for_fut_result (Fix = TRUE), flows with and without the fourth frame (addenda).
 2. The same TLC runs enumerate every bounded schedule (who attempts, copies/delays of each frame,
-   echo delay, third-party offer) together with the outcome the model predicts for it.
+   echo delay, third-party offer, the offset of the clock that stamps each gateway's packets from
+   the gateway's own clock) together with the outcome the model predicts for it.
 3. Each schedule is executed for every supported flow (DHW/RND->CTL, CO2/REM/DIS->FAN) on two real
    gateways with faked devices joined by harness.fakes.Ether in virtual time, followed by an
    undisturbed second attempt.
@@ -91,7 +92,7 @@ def validate(items: list[dict], workers: int) -> dict[str, Any]:
 
 def h_to_scenario(h: dict) -> dict:
     return {"present": [int(x) for x in h["present"]], "third": h["third"],
-            "sends": [[s[0], s[1], s[2], list(s[3])] for s in h["sends"]]}
+            "sends": [[s[0], s[1], s[2], list(s[3])] for s in h["sends"]], "skew": [int(x) for x in h["skew"]]}
 
 
 def pred_to_json(o: dict) -> dict:
@@ -100,7 +101,7 @@ def pred_to_json(o: dict) -> dict:
 
 
 def scen_key(sc: dict) -> str:
-    return json.dumps([sc["present"], sc["third"], sc["sends"]])
+    return json.dumps([sc["present"], sc["third"], sc["sends"], sc.get("skew", [0, 0])])
 
 
 def _exec(sc: dict) -> tuple[dict, list, dict]:
@@ -136,10 +137,13 @@ def main(tier: str, replay: str | None) -> None:
     mc: dict[str, dict] = {}
     states = trans = 0
     preds: dict[bool, dict[str, dict]] = {False: {}, True: {}}  # ratify -> scenario key -> {"sc", "asis": [...], "fix": [...]}
+    preds_skew: dict[bool, dict[str, dict]] = {False: {}, True: {}}  # the same, of the packet-clock instances
     cands: list[tuple[str, bool, dict]] = []
 
-    def run_mc(cfg: str, ratify: bool, variant: str | None, expect: list[str] | None = None) -> None:
+    def run_mc(cfg: str, ratify: bool, variant: str | None, expect: list[str] | None = None,
+               into: dict[bool, dict[str, dict]] | None = None) -> None:
         nonlocal states, trans
+        into = preds if into is None else into
         r = tlc.run_tlc("MC_Binding", cfg, workers=workers, timeout=1700, deadlock=False, parse_prints=False)
         if r.errors:
             raise tlc.MachineryFailure(f"TLC error on {cfg}: {r.errors[:3]}\n{r.out[-2000:]}")
@@ -160,7 +164,7 @@ def main(tier: str, replay: str | None) -> None:
             for txt in set(extract_tagged(r.out, "H")):
                 v = tlc.parse_value(txt)
                 sc = h_to_scenario(v[1])
-                e = preds[ratify].setdefault(scen_key(sc), {"sc": sc, "asis": [], "fix": []})
+                e = into[ratify].setdefault(scen_key(sc), {"sc": sc, "asis": [], "fix": []})
                 p = pred_to_json(v[2])
                 if p not in e[variant]:
                     e[variant].append(p)
@@ -177,6 +181,27 @@ def main(tier: str, replay: str | None) -> None:
         run_mc("MC_Binding_slow_fix.cfg", False, "fix")
     for inv in ("EndsProperly", "NotBindingAfterwards", "RetryWorks"):
         run_mc(f"MC_Binding_x_{inv}.cfg", False, None, [inv])
+    # the transports' packet clocks differ from the gateways' own (h.skew; a transport with a remote clock): small
+    # separate instances - duplicates and losses x every pair of offsets; the clauses are those of every other run
+    run_mc("MC_Binding_skew.cfg", False, "asis", into=preds_skew)
+    run_mc("MC_Binding_skew_fix.cfg", False, "fix", into=preds_skew)
+    run_mc("MC_Binding_skew_ratify.cfg", True, "asis", into=preds_skew)
+    run_mc("MC_Binding_skew_ratify_fix.cfg", True, "fix", into=preds_skew)
+    # model self-check: no action of Binding.tla reads h.skew, so the predictions of a schedule must be the same
+    # under every skew (this is what licenses re-using a schedule's prediction under another skew below)
+    skews: set[tuple[int, int]] = set()
+    for ratify in (False, True):
+        by_sched: dict[str, dict[tuple, str]] = {}
+        for e in preds_skew[ratify].values():
+            sc = e["sc"]
+            skews.add(tuple(sc["skew"]))
+            canon = json.dumps([sorted(json.dumps(p, sort_keys=True) for p in e[v]) for v in ("asis", "fix")])
+            by_sched.setdefault(scen_key(dict(sc, skew=[0, 0])), {})[tuple(sc["skew"])] = canon
+        n_sk = {len(v) for v in by_sched.values()}
+        if any(len(set(v.values())) != 1 for v in by_sched.values()) or len(n_sk) > 1:
+            raise tlc.MachineryFailure("Binding.tla: the predicted outcome of a schedule depends on h.skew (it must not)")
+    if len(skews) < 2:
+        raise tlc.MachineryFailure("MC_Binding_skew*.cfg enumerated no packet-clock offsets")
     t_mc = time.time() - t0
 
     # ---- schedules x flows -----------------------------------------------------------------------
@@ -195,6 +220,17 @@ def main(tier: str, replay: str | None) -> None:
         for e in es:
             for fl in (FLOWS4 if ratify else FLOWS3):
                 jobs.append(("enumerate", dict(e["sc"], flow=fl), e["asis"], e["fix"]))
+    n_plain = len(jobs)
+    for ratify in (False, True):  # schedules x packet-clock offsets, as enumerated by the skew instances
+        for e in sorted(preds_skew[ratify].values(), key=lambda e: scen_key(e["sc"])):
+            for fl in (FLOWS4 if ratify else FLOWS3):
+                jobs.append(("enumerate-skew", dict(e["sc"], flow=fl), e["asis"], e["fix"]))
+    # ... and on every fourth schedule of the other instances (losses, delays around the waits, third-party offers,
+    # one party absent), a transport clock that is not the gateway's: the prediction is the schedule's (self-check above)
+    off = sorted(k for k in skews if k != (0, 0))
+    for n, (o, sc, pa, pf) in enumerate(jobs[:n_plain]):
+        if n % 4 == 3:
+            jobs.append((o + "+skew", dict(sc, skew=list(off[(n // 4) % len(off)])), pa, pf))
 
     # the third party's offer in its other legal shape (addressed to the broadcast id, as the vendor schemes do):
     # the model does not distinguish the two, so the prediction is the same
@@ -223,7 +259,8 @@ def main(tier: str, replay: str | None) -> None:
     with cf.ProcessPoolExecutor(max_workers=workers) as pool:
         for (origin, sc, pa, pf), (obs, lexc, ends) in zip(jobs, pool.map(_exec, [j[1] for j in jobs], chunksize=16)):
             items.append({"ratify": int(X.RATIFY[sc["flow"]]), "present": sc["present"], "third": sc["third"],
-                          "sends": sc["sends"], "obs": obs, "pred": pa, "predfix": pf})
+                          "sends": sc["sends"], "skew": list(sc.get("skew") or [0, 0]),
+                          "obs": obs, "pred": pa, "predfix": pf})
             loop_exc += len(lexc)
             n_noisy += bool(lexc)
     t_exec = time.time() - t0 - t_mc
@@ -294,7 +331,10 @@ def main(tier: str, replay: str | None) -> None:
             "samples": samples,
             "tlc_runs": mc,
             "schedules": {"three_frame_flows": n_scen[False], "four_frame_flows": n_scen[True],
-                          "counterexamples": len(cands), "flows": FLOWS3 + FLOWS4},
+                          "counterexamples": len(cands), "flows": FLOWS3 + FLOWS4,
+                          "three_frame_x_skew": len(preds_skew[False]), "four_frame_x_skew": len(preds_skew[True]),
+                          "packet_clock_offsets_ms": sorted(list(k) for k in skews),
+                          "executions_with_skewed_packet_clock": sum(1 for j in jobs if any(j[1].get("skew") or [0, 0]))},
             "executions_with_failed_clause": n_fail,
             "conforms_to": conforms,
             "outcomes_differing_from_as_is_model": drift_f,
@@ -307,6 +347,7 @@ def main(tier: str, replay: str | None) -> None:
         assumptions=[
             "a gateway always hears the echo of its own transmission (loss/delay only between the two parties; echo delay 10 or 150 ms)",
             "a frame goes out 10 ms after the send starts (impersonation alert first); copies reach the peer after the scripted delays",
+            "a gateway's packets are stamped by a clock at a constant offset (0, +-250 ms, -5 s; per gateway) from the gateway's own clock; a clock that drifts or steps during a handshake is not scripted",
             "third-party traffic = one offer of a third device heard by the respondent (accepts/confirms between third parties are not routed to the devices under test)",
             "J10: stated waits = 5 s / 3 s per wait plus 10 s (BINDING_QOS) per frame sent; J15: loop-handler exceptions are recorded, not judged",
             "a result and a time-out falling into the same loop iteration are not modelled",
